@@ -160,9 +160,11 @@ impl Writer {
                         // items are reordered, e.g. by a position restriction
                         start_offset = 1;
                     }
-                    after_line_comment = false;
                     if let Some(incname) = incfile {
+                        // an item of an include file whose /include was already written produces no
+                        // output, so it does not end the line comment state
                         if !included_files.contains(incname) {
+                            after_line_comment = false;
                             self.add_whitespace(start_offset);
                             self.outstring.push_str("/include \"");
                             self.outstring.push_str(incname);
@@ -171,6 +173,7 @@ impl Writer {
                             included_files.insert(incname.to_owned());
                         }
                     } else {
+                        after_line_comment = false;
                         self.add_whitespace(start_offset);
                         if is_block {
                             self.outstring.push_str("/begin ");
